@@ -39,7 +39,8 @@ CHECKS.update({
    text='Theorems: even = n equal-width strictly increasing classes ending exactly at the effective maximum lag; '
         'NumPy linear-interpolation quantile is monotone in the level and stays within the data, hence uniform edges '
         'are n non-decreasing i/n quantiles of the distances within the effective maximum lag, none above it; '
-        'mid-points of [0]+sorted centres (k-means/ward) are non-decreasing and bounded; maxlag resolution cases and '
+        'mid-points of [0]+sorted centres (k-means/ward) are non-decreasing and bounded; maxlag resolution cases '
+        '(C02_string_maxlag: on the generated setter a median / mean request is that distance itself also below 1, only a number below 1 is a ratio) and '
         'effMax <= largest distance. Tie: correspondence of Variogram.bins/n_lags/maxlag and skgstat.binning.* with '
         'the executable model for every method and maxlag form; clustering centres / NumPy bin rules re-run as contracts.',
    note='scikit-learn KMeans/AgglomerativeClustering and numpy.histogram_bin_edges are contracts (re-run with the same '
